@@ -65,6 +65,14 @@ def expand(op, blk):
         return [(5, [op[1]], [b''])]
     if k == 'raw':
         return [(op[1], op[2], op[3])]
+    if k == 'spr_session':      # a session change inside a suppress-positive-response block: the client does not read; a refusal of the ECU stays unread
+        return [(100, [op[1]], []), (2, [op[2]], []), (101, [], []), (103, [10], [])]
+    if k == 'spr_tester_present':
+        return [(100, [op[1]], []), (6, [], []), (101, [], []), (103, [10], [])]
+    if k == 'slow_read':        # the ECU answers after the client has given up; the answer arrives while the client is idle
+        return [(102, [op[3]], []), (17, a_memloc(op[1], op[2], None, None), []), (102, [0], []), (103, [op[3] + 10], [])]
+    if k == 'slow_write_did':
+        return [(102, [op[3]], []), (25, [op[1]], [op[2]]), (102, [0], []), (103, [op[3] + 10], [])]
     raise RuntimeError(k)
 
 
@@ -110,8 +118,18 @@ def gen_ops(rnd, n, blk):
             if rnd.random() < 0.1 and blk <= 4:
                 ln = 257 * max(1, blk - 2) + 3    # block counter wraps 0xFF -> 0
             ops.append(('download', a, bytes(rnd.randrange(256) for _ in range(max(0, ln))), rnd.choice(fm), rnd.choice(fm)))
-        elif x < 0.8:
+        elif x < 0.77:
             ops.append(('session', rnd.choice([1, 2, 3])))
+        elif x < 0.8:
+            y = rnd.random()
+            if y < 0.4:
+                ops.append(('spr_session', rnd.choice([0, 0, 1]), rnd.choice([3, 0x55, 0x55])))
+            elif y < 0.5:
+                ops.append(('spr_tester_present', rnd.choice([0, 1])))
+            elif y < 0.8:
+                ops.append(('slow_read', rnd.choice(vals), rnd.choice([1, 4]), rnd.choice([6_000_000, 20_000_000])))
+            else:
+                ops.append(('slow_write_did', 0x0102, bytes([rnd.randrange(256)]), 6_000_000))
         elif x < 0.85:
             ops.append(('unlock', rnd.choice([1, 2, 5])))
         elif x < 0.9:
@@ -133,6 +151,10 @@ def gen_cases(tier, seed):
             cfgv[cl.SRV_ADDR] = ca
             cfgv[cl.ALGO] = 1
             data = bytes(range(1, 24))
+            for bad in (('spr_session', 0, 0x55), ('spr_session', 1, 0x55), ('slow_read', 0x1000, 4, 6_000_000), ('slow_write_did', 0x0102, b'\x07', 6_000_000)):
+                yield make_case(cfgv, blk, [('write_mem', 0x1000, data, None, None), ('write_mem', 0x3000, data[::-1], None, None), bad,
+                                            ('read_mem', 0x3000, len(data), None, None), ('read_mem', 0x1000, len(data), None, None),
+                                            ('write_did', 0xF190, b'ABC'), ('read_dids', [0xF190])], 'unread answer left behind')
             yield make_case(cfgv, blk, [('write_did', 0xF190, b'ABC'), ('read_dids', [0xF190]), ('write_mem', 0x1000, data, None, None),
                                         ('read_mem', 0x1000, len(data), None, None), ('download', 0x2000, data, None, None),
                                         ('read_mem', 0x2000, len(data), None, None), ('read_mem', 0x2005, 7, None, 16)], 'systematic')
@@ -182,14 +204,16 @@ def impl(c):
     client, conn, clk = cl.make_client(cfgv)
     ecu = Ecu(blk)
     out = []
-    state = {'start': 0, 'k': 0}
+    state = {'start': 0, 'k': 0, 'lat': 0}
     orig_send = conn.specific_send
 
     def send(payload):
         orig_send(payload)
         rep = ecu.reply(payload)
         if rep:
-            conn.sched.append((state['start'] + 1 + state['k'], rep))
+            # whatever the client does not read stays in the reception queue (only the client's own flush removes it)
+            conn.sched.append((state['start'] + 1 + state['lat'] + state['k'], rep))
+            conn.sched.sort(key=lambda x: x[0])
         state['k'] += 1
     conn.specific_send = send
     for _ in range(ncalls):
@@ -198,7 +222,18 @@ def impl(c):
         ncb = a[pos + 2 + nargs]
         pos += 3 + nargs
         cb, blobs = blobs[:ncb], blobs[ncb:]
-        conn.sched = []
+        if callid == 100:
+            client.suppress_positive_response(wait_nrc=(args[0] == 1)).__enter__()
+            continue
+        if callid == 101:
+            client.suppress_positive_response.__exit__(None, None, None)
+            continue
+        if callid == 102:
+            state['lat'] = args[0]
+            continue
+        if callid == 103:
+            clk.us += args[0]
+            continue
         conn.log = []
         state['start'], state['k'] = clk.us, 0
         res, exc = cl.enc_outcome(lambda: cl.do_call(client, callid, args, cb))
@@ -249,6 +284,9 @@ def oracle(c, r):
     per_call = []
     for callid, args, bl in calls:
         d = {}
+        if callid >= 100:
+            per_call.append({'kind': 'pseudo', 'frames': []})
+            continue
         k = r[i]
         if k == 0 and r[i + 1] == 0:
             d['kind'] = 'none'; i += 2
@@ -292,6 +330,9 @@ def oracle(c, r):
                 dids[op[1]] = op[2]
             else:
                 return ('write-refused', 'write_data_by_identifier(%#x, %r) was not accepted: %r' % (op[1], op[2], ds[0]))
+        elif k == 'slow_write_did':
+            if any(x['frames'] for x in ds):
+                dids[op[1]] = op[2]       # the ECU got the request and stored the value; only its answer came too late
         elif k == 'read_dids':
             if all(x in dids for x in op[1]):
                 want = [len(set(op[1]))]
